@@ -231,6 +231,11 @@ pub struct MultiCfg {
     pub inband_fti: bool,
     /// second object in a lower-priority queue
     pub two_queues: bool,
+    /// max_transfer_count of the first object (0 = 1). With 2 under per-transfer FDT instances the stream is
+    /// FDT{A} A FDT{B} B FDT{A} A: a receiver that first meets A in its second transfer must still find the older
+    /// instance that lists it. "Delivered" is then "at least once" (exactly-once is C01's clause)
+    #[serde(default)]
+    pub count_a: u32,
 }
 
 pub struct MultiPrepared {
@@ -252,6 +257,9 @@ pub fn prepare_multi(c: &MultiCfg) -> Result<MultiPrepared, String> {
         o.oti = Some(OtiSpec::new(c.scheme, e, c.k, c.parity, c.inband_fti));
         o.inband_cenc = c.inband_fti;
         o.prio = if c.two_queues && j == 1 { 1 } else { 0 };
+        if j == 0 {
+            o.count = c.count_a.max(1);
+        }
         objs.push(o);
     }
     let mut s = SessSpec::basic(OtiSpec::new(Scheme::NoCode, 1424, 64, 0, true));
@@ -350,7 +358,7 @@ pub fn run_multi(c: &MultiCfg, p: &MultiPrepared, lost: u32, g: &mut MG) -> Opti
                 return Some((format!("C02/multi/complete-with-wrong-bytes/{:?}", c.scheme), format!("TOI {}: writer [{}] completed with other bytes", toi, w.short())));
             }
         }
-        if expect[j] && completes.len() != 1 {
+        if expect[j] && (completes.len() != 1 && !(c.count_a >= 2 && j == 0 && !completes.is_empty())) {
             let logs: Vec<String> = out.writers.iter().map(|w| format!("toi {}: {}", w.toi, w.short())).collect();
             let lost_desc: Vec<String> = (0..n).filter(|i| lost >> i & 1 == 1).map(|i| { let f = &p.rec.info[i]; if f.toi == 0 { format!("FDT#{}", f.fdt_id.unwrap()) } else { format!("{}:{}.{}", f.toi, f.sbn, f.esi) } }).collect();
             return Some((
@@ -377,7 +385,10 @@ pub fn multi_configs(thorough: bool) -> Vec<MultiCfg> {
                         if two_queues && multiplex == 2 && !thorough {
                             continue;
                         }
-                        v.push(MultiCfg { scheme, k, parity, full_fdt, multiplex, inband_fti, two_queues });
+                        v.push(MultiCfg { scheme, k, parity, full_fdt, multiplex, inband_fti, two_queues, count_a: 0 });
+                        if !full_fdt && multiplex == 1 && !two_queues && (thorough || matches!(scheme, Scheme::NoCode | Scheme::Rs28)) && scheme != Scheme::Raptor {
+                            v.push(MultiCfg { scheme, k, parity, full_fdt, multiplex, inband_fti, two_queues, count_a: 2 });
+                        }
                     }
                 }
             }
